@@ -930,6 +930,10 @@ func (x *dispRun) execDg(op string, f []string, p int) bool {
 		expect := func(want, key string) {
 			if shape != want {
 				x.fail(key, fmt.Sprintf("%s: responses to the sender %q, the classifier rules prescribe %q", op, shape, want))
+				if strings.HasPrefix(key, "C03/") {
+					// a wrong number or kind of responses to a write contradicts C01's rule table as well
+					x.fail("C01/"+key[4:], fmt.Sprintf("%s: responses to the sender %q, the classifier rules prescribe %q", op, shape, want))
+				}
 			}
 		}
 		dataJudged := false // the write branches judge the data digest themselves
